@@ -36,6 +36,7 @@ class Trace:
     def __init__(self):
         self.lp: List[torch.Tensor] = []  # process_logits outputs, one [B,N] per pass
         self.amask: List[Optional[torch.Tensor]] = []
+        self.pl_opts: List[dict] = []  # the options process_logits was called with, one per pass
         self.sel_calls: List[dict] = []  # greedy/sampling/evaluate calls: {kind, logprobs, mask, selected}
         self.pre: Optional[dict] = None  # {start, done, num_starts, n_forced}
         self.steps: List[dict] = []  # per DecodingStrategy.step: {action_arg, appended_lp, appended_act}
@@ -80,6 +81,11 @@ class Recorder:
             out = orig_pl(logits, mask, *a, **k)
             tr.lp.append(_c(out))
             tr.amask.append(_c(mask))
+            names = ("temperature", "top_p", "top_k", "tanh_clipping", "mask_logits")
+            opts = {"temperature": 1.0, "top_p": 0.0, "top_k": 0, "tanh_clipping": 0, "mask_logits": True}
+            opts.update(dict(zip(names, a)))
+            opts.update({n: v for n, v in k.items() if n in names})
+            tr.pl_opts.append(opts)
             return out
 
         self._patch(D, "process_logits", process_logits)
@@ -167,8 +173,9 @@ class Recorder:
 
         def make_beam_step(self_, logprobs):
             before = _c(self_.parent_beam_logprobs)
+            lp_in = _c(logprobs)
             selected, bbi = orig_mbs(self_, logprobs)
-            tr.beam.append({"logprobs": _c(logprobs), "score_before": before, "selected": _c(selected),
+            tr.beam.append({"logprobs": lp_in, "logprobs_after": _c(logprobs), "score_before": before, "selected": _c(selected),
                             "bbi": _c(bbi), "parent": _c(self_.beam_path[-1]),
                             "score_after": _c(self_.parent_beam_logprobs)})
             return selected, bbi
